@@ -15,8 +15,11 @@ pub(crate) fn decode<'de, T>(bytes: &'de [u8]) -> Result<T, Error>
 where
     T: Deserialize<'de>,
 {
-    precheck(bytes)?;
-    serde_bencode::from_bytes(bytes)
+    // Hand the library only what has been scanned: it can run past the end of the first
+    // top-level value (e.g. when a struct is given as a list, missing fields swallow the
+    // enclosing `e`), and then reads tokens that were never checked.
+    let end = precheck(bytes)?;
+    serde_bencode::from_bytes(&bytes[..end])
 }
 
 /// Maximum nesting of lists/dictionaries accepted in an incoming message (KRPC needs 3).
@@ -28,9 +31,10 @@ const MAX_DEPTH: usize = 32;
 /// once per nesting level, so a tiny datagram such as `d1:t99999999999:` aborts the process and
 /// a datagram made of `l`s overflows the stack. Reject byte strings whose declared length exceeds
 /// the rest of the input and inputs nested deeper than `MAX_DEPTH`. Anything else (including
-/// malformed input) is left for the library to accept or reject as before. Like the library, the
-/// scan ends with the first complete top-level value; trailing bytes are ignored.
-fn precheck(bytes: &[u8]) -> Result<(), Error> {
+/// malformed input) is left for the library to accept or reject as before. The scan ends with the
+/// first complete top-level value; trailing bytes are ignored. Returns the length of the scanned
+/// prefix.
+fn precheck(bytes: &[u8]) -> Result<usize, Error> {
     let mut depth = 0usize;
     let mut i = 0usize;
 
@@ -51,7 +55,7 @@ fn precheck(bytes: &[u8]) -> Result<(), Error> {
                 }
                 if i >= bytes.len() {
                     // truncated length prefix: the library reports end of stream
-                    return Ok(());
+                    return Ok(bytes.len());
                 }
                 let len = match std::str::from_utf8(&bytes[start..i])
                     .ok()
@@ -59,7 +63,7 @@ fn precheck(bytes: &[u8]) -> Result<(), Error> {
                 {
                     Some(len) => len,
                     // malformed length prefix: the library rejects it without allocating
-                    None => return Ok(()),
+                    None => return Ok(bytes.len()),
                 };
                 i += 1;
                 if len > bytes.len() - i {
@@ -78,20 +82,21 @@ fn precheck(bytes: &[u8]) -> Result<(), Error> {
             }
             b'e' => {
                 if depth == 0 {
-                    return Ok(());
+                    // stray `e`: the library rejects it
+                    return Ok(bytes.len().min(i + 1));
                 }
                 depth -= 1;
                 i += 1;
             }
             // invalid character: the library rejects it
-            _ => return Ok(()),
+            _ => return Ok(bytes.len().min(i + 1)),
         }
 
         if depth == 0 {
             // first top-level value complete
-            return Ok(());
+            return Ok(bytes.len().min(i));
         }
     }
 
-    Ok(())
+    Ok(bytes.len())
 }
